@@ -101,7 +101,7 @@ ALPHABET = [
     ["anon", 0, "clause"], ["anon", 1, "clause"], ["anon", 3, "clause"], ["anon", 2, "upd"],
     ["anon", 0, "upd"], ["anon", 2, "constraint"],
     ["bad", "block-negative"], ["bad", "binary-empty-domain"], ["bad", "bipartite-wrong-type"],
-    ["bad", "label-arity"],
+    ["bad", "label-arity"], ["bad", "block-2^80"], ["bad", "binary-2^64"],
 ]
 EXHAUSTIVE_SUBSPACES["quick"][0] %= len(ALPHABET)
 
@@ -196,7 +196,14 @@ _SHARED = {}        # Graph objects of the current history, by vertex count
 def build_graph(op):
     import cnfgen.graphs as g
     k = op[0]
-    if k in ("bip", "smap"):
+    if k in ("bip", "smap") and len(op) > 4:
+        from ..ducks import computed_bipartite
+        if op[4] == "user-class":
+            G = computed_bipartite(op[1], op[2], [tuple(e) for e in op[3]])
+        else:
+            G = computed_bipartite(op[1], op[2], [tuple(e) for e in op[3]], order="preference", base="BaseBipartiteGraph")
+        _SHARED["user_class"] = _SHARED.get("user_class", 0) + 1
+    elif k in ("bip", "smap"):
         G = g.BipartiteGraph(op[1], op[2])
         for u, v in op[3]:
             G.add_edge(u, v)
@@ -283,11 +290,18 @@ def create_bad(ctx, T, what):
         return ctx.call(V.new_sparse_mapping, g.Graph(2))
     if what == "mapping-negative":
         return ctx.call(V.new_mapping, -1, 2)
+    # groups too large to be numbered at all (2^63 variables or more): refused, and the formula stays as it was
+    if what == "block-2^80":
+        return ctx.call(V.new_block, 2 ** 40, 2 ** 40)
+    if what == "block-2^63":
+        return ctx.call(V.new_block, 2 ** 63)
+    if what == "binary-2^64":
+        return ctx.call(V.new_binary_mapping, 2 ** 62, 4)
     raise ValueError(what)
 
 
 BAD = ["block-negative", "block-no-dimension", "binary-empty-domain", "bipartite-wrong-type", "label-arity",
-       "words-negative", "digraph-sortby", "sparse-mapping-wrong-type", "mapping-negative"]
+       "words-negative", "digraph-sortby", "sparse-mapping-wrong-type", "mapping-negative", "block-2^80", "block-2^63", "binary-2^64"]
 
 
 # ------------------------------------------------------------------ judging one group
@@ -736,6 +750,7 @@ def run_history(ctx, cls, ops, lab, r):
               and check_varname_lines(ctx, T, model, where))
     ctx.count("histories_on:" + cls)
     ctx.count("groups_on_a_reused_graph_object", _SHARED.get("reused", 0))
+    ctx.count("groups_on_a_user_class_graph", _SHARED.get("user_class", 0))
     nontrivial = any(rc.size for rc in model.recs)
     ctx.judged((cls, lab, repr(ops)), nontrivial=nontrivial,
                sample={"class": cls, "label_style": lab, "history": ops, "variables": model.numvar,
@@ -768,7 +783,9 @@ def random_op(r):
         L, R = r.randint(0, 5), r.randint(0, 5)
         if r.random() < 0.2:
             return ["bipc", L, R]
-        return ["bip", L, R, random_edges(r, itertools.product(range(1, L + 1), range(1, R + 1)), r.choice([0.2, 0.5, 0.9]))]
+        op = ["bip", L, R, random_edges(r, itertools.product(range(1, L + 1), range(1, R + 1)), r.choice([0.2, 0.5, 0.9]))]
+        x = r.random()
+        return op + (["user-class"] if x < 0.2 else ["user-class-own-order"] if x < 0.4 else [])
     if x < 0.60:
         n = r.randint(0, 7)
         E = random_edges(r, itertools.combinations(range(1, n + 1), 2), r.choice([0.2, 0.5, 0.9]))
@@ -782,7 +799,9 @@ def random_op(r):
         return ["map", r.randint(0, 4), r.randint(0, 4)]
     if x < 0.82:
         L, R = r.randint(0, 4), r.randint(0, 4)
-        return ["smap", L, R, random_edges(r, itertools.product(range(1, L + 1), range(1, R + 1)), r.choice([0.3, 0.6]))]
+        op = ["smap", L, R, random_edges(r, itertools.product(range(1, L + 1), range(1, R + 1)), r.choice([0.3, 0.6]))]
+        x = r.random()
+        return op + (["user-class"] if x < 0.2 else ["user-class-own-order"] if x < 0.4 else [])
     if x < 0.88:
         return ["bmap", r.randint(1, 4), r.choice([1, 2, 3, 4, 5, 7, 8, 9, 15, 16, 17, 32, 33, 40])]
     if x < 0.97:
